@@ -1314,6 +1314,7 @@ func boundaryCases(full bool) {
 		cfgs = cfgs[:5]
 	}
 	rotationCases(cfgs)
+	rotationFaultCases(cfgs[:3])
 	iv, ex := int64(60e9), int64(600e9)
 	offs := []int64{iv - 1, iv, iv + 1, 2*iv - 1, 2 * iv, 2*iv + 1, ex - 1, ex, ex + 1, ex + iv + 1, 1e9, 1}
 	revs := []string{"-", "ik0", "sk", "both"}
@@ -1406,6 +1407,35 @@ func rotationCases(cfgs [][3]string) {
 			w.exec("dec 2 1 flt=- mut=-")
 			w.exec("enc 2 10 flt=-")
 			w.exec("end")
+		}
+	}
+}
+
+// rotationFaultCases: the same inline rotation with one failing external call at every position
+// (read, KMS, allocator, AEAD; write faults too, which suspend the timed clauses): a failed
+// replacement of an expired key must fail the write, never fall back to the expired key.
+func rotationFaultCases(cfgs [][3]string) {
+	for _, cfg := range cfgs {
+		for k := 0; k < 12; k++ {
+			for _, kind := range []string{"err", "errw"} {
+				w := newWorld()
+				fmt.Fprintln(out, "new")
+				w.exec(fmt.Sprintf("fac 0 %s sk=%s ik=%s shared=%s", facDefault, cfg[0], cfg[1], cfg[2]))
+				w.exec("sess 0 0 0")
+				w.exec("enc 0 1 flt=-")
+				w.exec("adv 300000000000")
+				w.exec("sess 0 1 1")
+				w.exec("enc 1 2 flt=-")
+				w.exec("adv 301000000000")
+				w.exec("enc 1 3 flt=" + strings.Repeat("ok,", k) + kind)
+				w.exec("enc 1 4 flt=-")
+				w.exec("adv 61000000000")
+				w.exec("enc 1 5 flt=-")
+				w.exec("dec 1 1 flt=- mut=-")
+				w.exec("enc 0 6 flt=" + strings.Repeat("ok,", k) + kind)
+				w.exec("enc 0 7 flt=-")
+				w.exec("end")
+			}
 		}
 	}
 }
